@@ -9,6 +9,7 @@ import (
 	"sort"
 	"strings"
 	"sync"
+	"sync/atomic"
 
 	"github.com/jrhy/mast"
 	"verifharness/env"
@@ -393,6 +394,8 @@ type c14Golden struct {
 	Layers map[string]string            `json:"layers"` // type/bf -> digits
 	Order  map[string]string            `json:"order"`
 	Consts map[string]string            `json:"consts"`
+	// configurations whose trees could not be built on a healthy store (never part of the frozen file)
+	Failures map[string]string `json:"-"`
 }
 
 func c14Consts() map[string]string {
@@ -417,9 +420,16 @@ func c14Observe(storeCheck func(cfg *world.Config, name string, b []byte)) (*c14
 	var mu sync.Mutex
 	var firstErr error
 	for _, cfg := range cfgs {
+		atomic.AddInt64(&c14FailedCalls, int64(c14FailedEncodes(cfg.Format)))
 		vs, err := allVersionsLogged(cfg, func(c env.Call) { storeCheck(cfg, c.Name, c.Bytes) })
 		if err != nil {
-			return nil, fmt.Errorf("%s: %w", cfg.Name, err)
+			// the code under test failed on a healthy store: that is this configuration's outcome (its vectors are then missing)
+			if g.Failures == nil {
+				g.Failures = map[string]string{}
+			}
+			g.Failures[cfg.Name] = err.Error()
+			g.Roots[cfg.Name] = map[string]string{}
+			continue
 		}
 		m := map[string]string{}
 		for _, v := range vs {
@@ -475,6 +485,34 @@ func C14Gen() int {
 	return 0
 }
 
+// c14FailedEncodes: before anything is compared, a series of MakeRoot calls fail half-way in this
+// process - each of the first Marshal calls of a flush in turn, each class of Store calls - on small
+// trees of both formats. The frozen format is a function of the entries alone: what an earlier,
+// failed call did must not show in any byte written afterwards.
+// They are repeated in front of every configuration whose vectors are computed, in that
+// configuration's format, and the last of them are always calls that did fail (a later successful
+// call would hide what an earlier failed one left behind).
+func c14FailedEncodes(f string) (n int) {
+	for _, keys := range [][]interface{}{ulist(1, 2, 3, 4, 5), ulist(1, 2, 3), ulist(1)} {
+		cfg := world.UintCfg(2, keys, 1, f, "none")
+		for _, v := range []int{0, 1, 2, 17, 16, 15, 14, 13, 12, 11, 10} {
+			w, err := world.New(cfg)
+			if err != nil {
+				continue
+			}
+			for k := range cfg.Keys {
+				w.Apply(world.Op{Kind: world.OpIns, K: k, V: 0})
+			}
+			if r := w.Apply(world.Op{Kind: world.OpPersistFail, V: v}); r.Err != nil {
+				n++
+			}
+		}
+	}
+	return n
+}
+
+var c14FailedCalls int64
+
 func C14(run *report.Run) {
 	cfgAll := &world.Config{Name: "format"}
 	acc := &pairAcc{}
@@ -491,6 +529,10 @@ func C14(run *report.Run) {
 	if err != nil {
 		run.HarnessError("observe: %v", err)
 		return
+	}
+	run.Extra["failed_MakeRoot_calls_interleaved_with_the_computation_of_the_vectors"] = atomic.LoadInt64(&c14FailedCalls)
+	for name, e := range obs.Failures {
+		acc.add(cfgAll, "C14", []explore.Finding{{Sig: "C14|trees-cannot-be-written-and-read-back|" + fmtOfName(name), What: "building, persisting and re-loading the small trees of a configuration failed on a healthy store (what was written is not the frozen format)", Detail: name + ": " + e}}, []string{name})
 	}
 	// (1) implementation vs independent re-implementation
 	for _, cfg := range c14RootConfigs() {
